@@ -258,15 +258,14 @@ theorem writerKeywords_ident : ∀ k ∈ writerKeywords, isIdent k = true := by 
 def kwDebugger : Str := ['d','e','b','u','g','g','e','r']
 def kwIn : Str := ['i','n']
 
-/-- a key/name the round trip covers: no U+0000 (F-C17b), and not one of the two lexer keywords the
-    writer's keyword list lacks (`in`, `debugger`: written bare, the text then fails to parse — creation
-    fails, nothing is injected; `lexer_keyword_key_rejected`) -/
-def KeyOk (k : Str) : Prop := chNUL ∉ k ∧ k ≠ kwDebugger ∧ k ≠ kwIn
+/-- a key/name the round trip covers: no U+0000 (F-C17b).  Nothing else: every lexer keyword is in the
+    writer's list (3c83e1d added `in` and `debugger`) and is written `@keyword`. -/
+def KeyOk (k : Str) : Prop := chNUL ∉ k
 
-theorem not_lexerKeyword {k : Str} (h1 : k ∉ writerKeywords) (h2 : k ≠ kwDebugger) (h3 : k ≠ kwIn) :
-    k ∉ lexerKeywords := by
-  simp only [lexerKeywords, List.mem_cons, not_or]
-  exact ⟨h2, h3, h1⟩
+theorem lexerKeywords_sub_writer : ∀ k ∈ lexerKeywords, k ∈ writerKeywords := by decide
+
+theorem not_lexerKeyword {k : Str} (h1 : k ∉ writerKeywords) : k ∉ lexerKeywords :=
+  fun h => h1 (lexerKeywords_sub_writer k h)
 
 /-- the first character of an emitted key: never blank, `}` … -/
 def keyHead (c : Char) : Prop := solid c = true ∧ c ≠ '}'
@@ -304,12 +303,12 @@ theorem parseKey_emitKey (k rest : Str) (hk : KeyOk k) (hr : Stops isIdChar rest
   · rename_i hkw
     split
     · rename_i hid
-      have hb := parseIdent_bare k rest hid hr (not_lexerKeyword hkw hk.2.1 hk.2.2)
+      have hb := parseIdent_bare k rest hid hr (not_lexerKeyword hkw)
       obtain ⟨c, t, rfl, hc, _⟩ := isIdent_cons hid
       have hne : c ≠ '"' := ne_of_class hc (by decide)
       simp only [List.cons_append] at hb ⊢
       simp [parseKey, hne, hb]
-    · have := lexStr_escape k hk.1 rest
+    · have := lexStr_escape k hk rest
       simp only [emitString, List.cons_append, List.append_assoc]
       simpa [parseKey] using this
 
